@@ -195,6 +195,11 @@ class C20(ProgProp):
         alt["dump_interval"] = case.get("dump_interval", 1)
         r1 = progsim.execute(alt, (), check_values=False)
         t1 = [e for e in r1["trace"] if e[0] != "option"]
+        if case["options"].get("KEEP_DEPENDENCIES"):
+            # keeping dependencies means keeping references: when the generator of an abandoned
+            # (never completed) task is finalised is a matter of object lifetime, not of behaviour
+            t0 = [e for e in t0 if e[0] != "closed"]
+            t1 = [e for e in t1 if e[0] != "closed"]
         c1 = self._after(case, r1["B"], case["options"]) if case.get("canary") else None
         out = []
         if c0 is not None and c0 != c1:
